@@ -56,8 +56,17 @@ def is_atom(n):
     return len(n) > 0 and all(32 < c < 127 and c not in ATOM_BAD for c in n)
 
 
+# the trailing-separator dimension: special names and their case variants with one or more '/' at the end
+SLASHED = ["inbox/", "Inbox/", "INBOX/", "INBOX//", "inbox//", "Roles/", "roles/", "Roles//", "Sent/", "sent/", "Trash/",
+           "Spam//", "/", "//", "Work/", "Work//", "Work/sub/", "nop/arent/", "My Folder/", "q\"uote/", "Inbox/sub/", "b/"]
+SLASH_P = 0.0
+
+
 def encode(rng, name):
-    """raw astring for a decoded name: atom when possible (half of the time), else quoted"""
+    """raw astring for a decoded name: atom when possible (half of the time), else quoted;
+    with probability SLASH_P (set per history family) one or two '/' are appended first"""
+    if SLASH_P and rng.random() < SLASH_P:
+        name = (name if isinstance(name, str) else name.decode("latin-1")) + rng.choice(["/", "/", "//"])
     b = name.encode("latin-1") if isinstance(name, str) else name
     if is_atom(b) and rng.random() < 0.5:
         return b
@@ -182,6 +191,36 @@ def gen_recur(rng):
     leaf = max(known, key=len) if known else anc
     h.append(("DELETE", encode(rng, leaf)))
     h.append(("LIST",))
+    return h
+
+
+def gen_slash(rng):
+    """names with trailing hierarchy separators in every command that takes a name: CREATE of the special
+    names / case variants / existing names / names with a missing parent + '/', then DELETE, RENAME (either
+    argument), SUBSCRIBE, STATUS, SELECT, APPEND on the slashed and the bare forms, LIST after each round"""
+    h = []
+    seen = []
+    for rnd in range(rng.randint(2, 3)):
+        for _ in range(rng.randint(2, 4)):
+            n = rng.choice(SLASHED)
+            h.append(("CREATE", encode(rng, n)))
+            seen.append(n)
+        h.append(("LIST",))
+        for _ in range(rng.randint(3, 5)):
+            n = rng.choice(seen + SLASHED[:8])
+            bare = n.rstrip("/") or "/"
+            arg = rng.choice([n, bare, bare + "/", bare.lower(), bare.upper()])
+            k = rng.choice(["DELETE", "RENAME", "RENAME2", "SUBSCRIBE", "STATUS", "SELECT", "APPEND", "UNSUBSCRIBE"])
+            if k == "RENAME":
+                h.append(("RENAME", encode(rng, arg), encode(rng, "moved%d" % len(h))))
+            elif k == "RENAME2":
+                h.append(("RENAME", encode(rng, rng.choice(["Spam", "Trash", "Work", "INBOX"])), encode(rng, arg)))
+            elif k == "APPEND" and any(ch in arg for ch in "(){}"):
+                continue
+            else:
+                h.append((k, encode(rng, arg)))
+        h.append(("LIST",))
+        h.append(("LSUB",))
     return h
 
 
@@ -610,13 +649,18 @@ def run(chk):
     nlike = 0
     # 3. generated histories
     quick = chk.tier == "quick"
-    n_clean, n_mixed, n_bad, n_na, n_rec, n_env = (50, 45, 10, 6, 25, 20) if quick else (600, 600, 80, 30, 300, 200)
+    n_clean, n_mixed, n_bad, n_na, n_rec, n_env, n_sl = (45, 40, 10, 6, 22, 18, 20) if quick else (600, 600, 80, 30, 300, 200, 250)
+    global SLASH_P
+    SLASH_P = 0.08          # 8 % of the name arguments of clean / mixed histories get trailing separators
     hs = ([gen_history(rng, "clean", rng.randint(10, 16)) for _ in range(n_clean)]
-          + [gen_history(rng, "mixed", rng.randint(10, 16)) for _ in range(n_mixed)]
+          + [gen_history(rng, "mixed", rng.randint(10, 16)) for _ in range(n_mixed)])
+    SLASH_P = 0.0
+    hs = (hs
           + [gen_history(rng, "malformed", rng.randint(6, 10)) for _ in range(n_bad)]
           + [gen_history(rng, "nonascii", rng.randint(6, 10)) for _ in range(n_na)]
           + [gen_recur(rng) for _ in range(n_rec)]
-          + [gen_env(rng) for _ in range(n_env)])
+          + [gen_env(rng) for _ in range(n_env)]
+          + [gen_slash(rng) for _ in range(n_sl)])
     items, codes = run_histories(chk, hs, stats)
     if codes is None:
         return
@@ -657,6 +701,8 @@ def run(chk):
                                      "recurring_ancestor_histories (>=3 levels, ancestor name inside descendants, RENAME/DELETE + STATUS per name)": n_rec,
                                      "environment_histories (default name removed, then fresh store opens: delivery via the delivery side's manager, IMAP restart + login)": n_env,
                                      "environment steps inside clean/mixed histories": "7% of the steps",
+                                     "trailing_separator_histories (special names / case variants / existing / missing-parent names with one or more trailing '/', in CREATE, DELETE, RENAME both arguments, SUBSCRIBE, UNSUBSCRIBE, STATUS, SELECT, APPEND)": n_sl,
+                                     "trailing separators inside clean/mixed histories": "8% of the name arguments",
                                      "names": len(CLEAN) + len(DIRTY), "encoding": "atom or quoted, 50/50 when both are possible"}
     for (h, init, steps) in items[:1] + items[n_clean:n_clean + 1]:
         k = min(3, len(steps) - 1)
